@@ -240,6 +240,18 @@ Theorem C01_network_total : forall build sizes nms jds pis,
 Proof. exact gen_network_total. Qed.
 Print Assumptions C01_network_total.
 
+(* the extracted entry point the harness compares the real networkx graph with is gen_network on
+   the decoded input (definitional; stated so that the wire format is visible here) *)
+Theorem C01_net_run_is_gen_network : forall t,
+  c01_net_run t =
+  match gen_network (build_of_codes (t_nats (t_nth 3 t))) (t_nats (t_nth 2 t))
+                    (map (hd 0) (t_natss (t_nth 4 t))) (t_natss (t_nth 1 t)) (t_natss (t_nth 6 t)) with
+  | Err e => t_err e
+  | Ok (cs, g) => L [L (map (fun c => enc_call (flat_call c)) cs); enc_net g]
+  end.
+Proof. exact c01_net_run_unfold. Qed.
+Print Assumptions C01_net_run_is_gen_network.
+
 (* non-vacuity: a 2-clique topology and a 3-cycle topology, vertex 4 of joint degree zero, non-identity
    shuffles; the callbacks return (1,0), (3,0), (0,2), (3,2): no unordered pair twice, three of them
    stored in the other orientation; every edge carries (topology name, motif id) *)
